@@ -240,3 +240,12 @@ Theorem c03_a_live_id_stays_live_through_every_delivery_but_a_despawn :
     LV k w -> item_kind w it <> Some KDespawn -> LV k (snd (fst (deliver_one beh it w))).
 Proof. exact live_until_despawned. Qed.
 Print Assumptions c03_a_live_id_stays_live_through_every_delivery_but_a_despawn.
+
+(* the removal of an entity spares every other id: together with c03_removing_an_entity_makes_its_id_dead, the Despawn
+   effect takes exactly the entity stored at the row it is given *)
+Theorem c03_removing_an_entity_leaves_every_other_live_id_live :
+  forall (k : key) (w : world) (ai row : N) (a : arch) (e : key) (vals : list Query.cval), LV k w ->
+    slab_get (w_archs w) ai = Some a -> nget (a_rows a) row = Some (e, vals) -> e <> k ->
+    LV k (WorldFrame.res_world (remove_entity w (ai, row))).
+Proof. exact remove_entity_spares_the_others. Qed.
+Print Assumptions c03_removing_an_entity_leaves_every_other_live_id_live.
